@@ -928,11 +928,6 @@ end
 
 /-! ## non-vacuity: a concrete run that reaches `Done` -/
 
-/-- run a list of events -/
-def run (e : Env) : St → List Ev → Option St
-  | s, [] => some s
-  | s, ev :: evs => (step e s ev).bind fun s' => run e s' evs
-
 theorem run_reachable {e : Env} {s0 : St} : ∀ (evs : List Ev) (s s' : St),
     Reachable e s0 s → run e s evs = some s' → Reachable e s0 s' := by
   intro evs
